@@ -161,6 +161,26 @@ int main() {
             amgcl::coarsening::smoothed_aggr_emin<B> c(ep); auto PR = c.transfer_operators(*St);
             vec v = flat(*std::get<0>(PR)); vec r = flat(*std::get<1>(PR)); v.insert(v.end(), r.begin(), r.end()); return v; }, false});
         for (auto &it : items) run_item(it);
+        // ---- a team smaller than omp_get_max_threads(): amgcl called from inside a caller's parallel region
+        // (nesting off: the inner team has one thread while omp_get_max_threads() still says 4 / 8).  Only the
+        // cross-thread REDUCTION of the vector primitives is asked for here: its per-thread partial sums must not
+        // depend on every slot having been written.  (The level-scheduled sweeps distribute rows over
+        // omp_get_max_threads() task lists by design and are outside this record.)
+        for (int mt : {4, 8}) {
+            omp_set_num_threads(1);
+            double ref = amgcl::backend::inner_product(f, y0);
+            omp_set_num_threads(mt);
+            double top = amgcl::backend::inner_product(f, y0), nested = 0;
+#pragma omp parallel num_threads(2)
+            {
+#pragma omp single
+                { nested = amgcl::backend::inner_product(f, y0); }
+            }
+            omp_set_num_threads(1);
+            double sc = std::fabs(ref) > 0 ? std::fabs(ref) : 1;
+            auto ul = [&](double v) { double u = std::fabs(v - ref) / (sc * 2.220446049250313e-16); return (long long)(std::isfinite(u) ? std::min(1e9, u) : 1e9); };
+            vr::emit(vr::obj().str("k", "team").str("name", "inner_product").i("maxthreads", mt).i("top", ul(top)).i("nested", ul(nested)).i("bound", 8LL * n).done());
+        }
     }
     vr::obj o; o.str("e", "End"); vr::emit(o.done());
     return 0;
